@@ -160,7 +160,8 @@ def run(facts, chk, tier, only=None):
             raise AnchorLost('MergeSkaDict fields are %s' % names)
         bad = []
         n = 0
-        for ns, no in itertools.product((1, 2, 3), repeat=2):
+        sizes = (1, 2, 3, 4, 5) if tier == 'thorough' else (1, 2, 3)
+        for ns, no in itertools.product(sizes, repeat=2):
             I = Interp(facts, {'IntT': 'u64'})
 
             def mk(tag, nn, keys):
@@ -201,7 +202,7 @@ def run(facts, chk, tier, only=None):
             chk.violation('C07.rows', 'C07.rows:extend', where=MSD + '::extend', evals=n, detail='%s: %s' % bad[0])
         else:
             chk.ok('C07.rows', 'C07.rows:extend', MSD + '::extend',
-                   'rows = [self | zeros] ++ [other | zeros] for the 3 k-mer classes, names = self ++ other, n_samples = n_s + n_o; (n_s, n_o) in 1..3', evals=n,
+                   'rows = [self | zeros] ++ [other | zeros] for the 3 k-mer classes, names = self ++ other, n_samples = n_s + n_o; (n_s, n_o) in 1..%d' % (5 if tier == 'thorough' else 3), evals=n,
                    sample=dict(classes=['self only', 'both', 'other only'], sizes='1..3 x 1..3'))
 
     # to_dict: rows keep their cells, names cloned in order, built with (k, n_samples, rc)
@@ -225,4 +226,6 @@ def run(facts, chk, tier, only=None):
         else:
             chk.violation('C07.rows', 'C07.rows:to_dict', where='merge_ska_array::MergeSkaArray::to_dict', detail='to_dict builds the dictionary with %s' % why)
 
+    from . import tableops
+    chk.guard('C07.func', 'C07.func:pipeline', lambda: tableops.check_merge_pipeline(facts, chk, 'C07.func', tier))
     chk.guard('C07.missing', 'C07.missing:run', lambda: c03.check_gap(facts, chk, 'C07.missing'))
